@@ -710,7 +710,8 @@ def run(ck):
         ck.unproved("the scanner model and the regenerated regex disagree on a concrete text although "
                     "scanner_is_python_match is proved: harness/translator inconsistency",
                     {"witnesses": [(n, t, g) for n, t, g in rx_scan_bad[:5]]})
-    if rx_sem_bad or rx_errors:
+    table_is_baseline = any(n == "C06Tables" for n, _ in gen_tables.FAILURES)   # reported by finish()
+    if (rx_sem_bad and not table_is_baseline) or rx_errors:
         ck.unproved("the Coq regex semantics (coq/C06/Regex.v, run on the AST translated from the source) "
                     "does not answer what CPython's re answers: %r" % ((rx_sem_bad or rx_errors)[0],),
                     {"correspondence": "regex_agrees", "disagreements": [(n, t, g) for n, t, g in rx_sem_bad[:5]],
